@@ -45,7 +45,7 @@ def extra(tier, seed, workers, only):
     from .. import scen
     from ..engine import make_spec
     specs = []
-    cts = ["h11", "h11tls", "fwd", "tunnel", "socks"] if tier == "quick" else [c for c in scen.CONN_TYPES]
+    cts = ["h11", "h11tls", "fwd", "tunnel", "socks", "h2pk", "h2alpn"] if tier == "quick" else [c for c in scen.CONN_TYPES]
     for ct in cts:
         for variant in ("sync", "async"):
             for early in (False, True):
